@@ -233,10 +233,13 @@ class Tr:
                 ret = body[-1]
                 for s in body[:-1]:
                     ok = (isinstance(s, ast.If) and not s.orelse and len(s.body) == 1 and isinstance(s.body[0], ast.Raise)
-                          and isinstance(s.test, ast.Compare) and isinstance(s.test.ops[0], ast.In)
+                          and isinstance(s.test, ast.Compare) and len(s.test.ops) == 1 and isinstance(s.test.ops[0], ast.In)
+                          and isinstance(s.test.left, ast.Name) and len(names) == 2 and s.test.left.id == names[1]
                           and isinstance(s.test.comparators[0], ast.Name) and s.test.comparators[0].id == "special_methods")
                     if not ok:
                         U(s, "unexpected statement in accessor")
+                if acc == "AccGetattr" and len(body) != 2:
+                    U(m, "__getattr__ is expected to refuse exactly the names in special_methods, then build the node")
                 if not (isinstance(ret, ast.Return) and isinstance(ret.value, ast.Call) and isinstance(ret.value.func, ast.Name)
                         and ret.value.func.id in self.refcls and not ret.value.keywords and len(ret.value.args) == 3):
                     U(ret, "accessor does not return Class(self, x, y)")
@@ -250,6 +253,25 @@ class Tr:
                     U(ret, "accessor arguments not recognised")
                 access.append(f"({self.cid(owner)}%N, {acc}, {self.cid(ret.value.func.id)}%N)")
         return dbin, dun, dbuiltin, access
+
+    def special_names(self):
+        """special_methods = {'__copy__', ...}: the attribute names __getattr__ refuses to defer"""
+        found = None
+        for node in self.tree.body:
+            if isinstance(node, ast.Assign) and len(node.targets) == 1 and isinstance(node.targets[0], ast.Name) \
+                    and node.targets[0].id == "special_methods":
+                if found is not None:
+                    U(node, "special_methods assigned twice")
+                v = node.value
+                if not (isinstance(v, ast.Set) and all(isinstance(e, ast.Constant) and isinstance(e.value, str) for e in v.elts)):
+                    U(node, "special_methods is not a set display of string constants")
+                found = [e.value for e in v.elts]
+        if found is None:
+            raise Unrecognised("special_methods not found")
+        for node in ast.walk(self.tree):       # the set must not be changed anywhere else
+            if isinstance(node, ast.Attribute) and isinstance(node.value, ast.Name) and node.value.id == "special_methods":
+                U(node, "special_methods is modified/used through a method")
+        return found
 
     # ---- _get_value of the generated classes --------------------------------
     def mkvalue_locals(self, stmts):
@@ -544,6 +566,7 @@ class Tr:
         inpl = self.inplace()
         deps = self.deps()
         red, cin, asg = self.reduce_cinit()
+        special = [coq_string_codes(n) for n in self.special_names()]
         cls = []
         for n in self.refcls:
             mro = "; ".join(f"{self.cid(x)}%N" for x in self.mro(n))
@@ -573,7 +596,8 @@ class Tr:
                 f"  t_deps := {lst(deps)};\n"
                 f"  t_reduce := {lst(red)};\n"
                 f"  t_cinit := {lst(cin)};\n"
-                f"  t_cinit_assign := {lst(asg)}\n"
+                f"  t_cinit_assign := {lst(asg)};\n"
+                f"  t_special_names := {lst(special)}\n"
                 "|}.\n")
 
 
